@@ -987,6 +987,31 @@ func (e *specEnv) evalCall(n *ast.CallExpr) (sval, error) {
 			return sval{v: scalar(FloatLit(f)), typ: types.Typ[types.Float64]}, nil
 		}
 		return sval{v: scalar(x.intToFloat(v.v.T, types.Typ[types.Int])), typ: types.Typ[types.Float64]}, nil
+	case "movesOnly": // movesOnly(a, b...): every navigator that existed in the old state, other than a, b..., is where it was
+		x.needTheory = true
+		cur := x.heapSym(e.s, "navpos", SArray(SInt, SPos))
+		x.heapSym(e.s, "alloc", SArray(SInt, SBool))
+		oldNav, oldAl := e.s.heap0["navpos"], e.s.heap0["alloc"]
+		if e.oldHeap != nil {
+			if t, ok := e.oldHeap["navpos"]; ok {
+				oldNav = t
+			}
+			if t, ok := e.oldHeap["alloc"]; ok {
+				oldAl = t
+			}
+		}
+		x.nfresh++
+		r := T{fmt.Sprintf("r!q%d", x.nfresh), SInt}
+		conds := []T{Select(oldAl, r, SBool)}
+		for i := range n.Args {
+			v, err := arg(i)
+			if err != nil {
+				return sval{}, err
+			}
+			conds = append(conds, Not(Eq(r, mk(SInt, "iptr", v.v.T))))
+		}
+		body := Implies(And(conds...), Eq(Select(cur, r, SPos), Select(oldNav, r, SPos)))
+		return sval{v: scalar(T{fmt.Sprintf("(forall ((%s Int)) (! %s :pattern (%s)))", r.S, body.S, Select(cur, r, SPos).S), SBool}), typ: boolT}, nil
 	case "pos": // ghost position of a navigator value
 		v, err := arg(0)
 		if err != nil {
@@ -1009,6 +1034,21 @@ func (e *specEnv) evalCall(n *ast.CallExpr) (sval, error) {
 			so = SPos
 		}
 		return sval{v: scalar(Select(e.heapOf("ghost:"+name, SArray(SInt, so)), ref, so))}, nil
+	case "hasMethod": // hasMethod(v, "M"): the dynamic type of v has method M (an interface with just that method is satisfied)
+		v, err := arg(0)
+		if err != nil {
+			return sval{}, err
+		}
+		lit, ok := n.Args[1].(*ast.BasicLit)
+		if !ok {
+			return sval{}, fmt.Errorf("hasMethod needs a method name")
+		}
+		mn, _ := strconv.Unquote(lit.Value)
+		it := x.p.ifaceWithMethod(mn)
+		if it == nil {
+			return sval{}, fmt.Errorf("no single-method interface with method %s is asserted anywhere", mn)
+		}
+		return sval{v: scalar(x.implementsT(v.v.T, it)), typ: boolT}, nil
 	case "captured": // captured(v): the variable a closure captured, even when a local shadows its name
 		id, ok := n.Args[0].(*ast.Ident)
 		if !ok || e.frame == nil {
